@@ -39,6 +39,7 @@ type ProjectRunner struct {
 	statesMutex       sync.Mutex
 	processStates     map[string]*types.ProcessState
 	runProcMutex      sync.Mutex
+	startMutex        sync.Mutex
 	runningProcesses  map[string]*Process
 	doneProcMutex     sync.Mutex
 	doneProcesses     map[string]*Process
@@ -354,6 +355,10 @@ func (p *ProjectRunner) removeRunningProcess(process *Process) {
 }
 
 func (p *ProjectRunner) StartProcess(name string) error {
+	// manual starts and restarts are serialized: the check for a live instance
+	// and the registration of the new one must not interleave with another request
+	p.startMutex.Lock()
+	defer p.startMutex.Unlock()
 	proc := p.getRunningProcess(name)
 	if proc != nil {
 		log.Error().Msgf("Process %s is already running", name)
@@ -409,6 +414,8 @@ func (p *ProjectRunner) StopProcesses(names []string) (map[string]string, error)
 
 func (p *ProjectRunner) RestartProcess(name string) error {
 	log.Debug().Msgf("Restarting %s", name)
+	p.startMutex.Lock()
+	defer p.startMutex.Unlock()
 	proc := p.getRunningProcess(name)
 	if proc != nil {
 		err := proc.shutDownNoRestart()
